@@ -30,18 +30,18 @@ def run(ctx):
     if ctx.quick:
         consts = dict(Now=NOW, Duration=31 * DAY, Overrides="{%d, %d}" % (10 * DAY, 60 * DAY),
                       Cutoffs="{%d, %d}" % (calendar.timegm((2033, 4, 28, 0, 0, 0)), calendar.timegm((2033, 2, 7, 0, 0, 0))),
-                      Before="{1}", After="{0, 1}", Old=400 * DAY, Recent=DAY, MaxLeases=5)
+                      Before="{1}", After="{0, 1}", Old=400 * DAY, Recent=DAY, MaxLeases=5, Shift=2 * DAY)
     else:
         consts = dict(Now=NOW, Duration=31 * DAY, Overrides="{%d, %d, %d, %d}" % (DAY, 10 * DAY, 31 * DAY, 60 * DAY),
                       Cutoffs="{%d, %d, %d}" % (calendar.timegm((2033, 5, 18, 0, 0, 0)), calendar.timegm((2033, 4, 28, 0, 0, 0)),
                                                 calendar.timegm((2033, 2, 7, 0, 0, 0))),
-                      Before="{1, 3600}", After="{0, 1, 3600}", Old=400 * DAY, Recent=600, MaxLeases=5)
+                      Before="{1, 3600}", After="{0, 1, 3600}", Old=400 * DAY, Recent=600, MaxLeases=5, Shift=2 * DAY)
     ctx.constants["GEN"] = consts
     cfg = "SPECIFICATION Spec\nCONSTANTS\n" + "".join("  %s = %s\n" % kv for kv in consts.items())
-    cfg += "INVARIANT C26_Disabled_OK\nINVARIANT C26_Exact_OK\nINVARIANT C26_ValidLeasesKept_OK\nINVARIANT C26_NonTrivial\n"
+    cfg += "INVARIANT C26_Disabled_OK\nINVARIANT C26_Exact_OK\nINVARIANT C26_ValidLeasesKept_OK\nINVARIANT C26_NonTrivial\nINVARIANT C26_CyclesCompose\n"
     cases, r = ctx.gen("storage/GenExpirer", cfg, timeout=3000)
     ctx.exhaustive = True
-    out = ctx.impl("harness/expirer_driver.py", [], input_obj={"now": NOW, "cases": cases})
+    out = ctx.impl("harness/expirer_driver.py", [], input_obj={"now": NOW, "cases": cases, "shift": consts["Shift"]})
     if len(out) != len(cases):
         from vfw.core import MachineryError
         raise MachineryError("driver returned %d results for %d cases" % (len(out), len(cases)))
@@ -90,6 +90,31 @@ def run(ctx):
                     d = "low" if (o[k] or 0) < c["expect"][k] else "high"
                     ctx.report("C26:%s:counter_%s_%s" % (cls, k, d), "space-recovered %s-shares = %r, Spec %d (cfg %s)"
                                % (k, o[k], c["expect"][k], json.dumps(cfg_)), dict(rep, counter=k, real=o[k], spec=c["expect"][k]))
+        # the second cycle (Shift later, every other case after a restart), over containers that now have cancelled lease slots
+        o2 = o["second"]
+        how = "after_restart" if o2["restarted"] else "same_process"
+        if o2["crash"]:
+            ctx.report("C26:%s:second_cycle_raised_%s" % (cls, o2["crash"].split(":")[0]), "the second crawl cycle (%s) raised %s (cfg %s)"
+                       % (how, o2["crash"], json.dumps(cfg_)), dict(rep, crash=o2["crash"], second=how))
+        elif o2["finished_cycle"] != 1:
+            ctx.report("C26:%s:second_cycle_not_finished" % cls, "the second crawl cycle (%s) did not finish: last-cycle-finished = %r" % (how, o2["finished_cycle"]),
+                       dict(rep, second=how))
+        else:
+            exp2 = {s["id"]: sorted(s["leases"]) for s in c["expect2"]["survivors"]}
+            real2 = {s["id"]: s["leases"] for s in o2["survivors"]}
+            for s in c["shares"]:
+                e, g = s["id"] in exp2, s["id"] in real2
+                if e == g and (not e or exp2[s["id"]] == real2[s["id"]]):
+                    continue
+                what = ("kept_share_deleted" if e and not g else "expired_share_kept" if g and not e else
+                        "valid_lease_removed" if set(exp2[s["id"]]) - set(real2[s["id"]]) else "expired_lease_kept")
+                if c["zero"] and what == "expired_share_kept":
+                    what = "share_kept"
+                ctx.report("C26:%s:%s" % (cls, what) if c["zero"] else "C26:%s:second_cycle_%s" % (cls, what),
+                           "second cycle (%s, %d s later): %s share with leases %s: after the cycle %s, Spec %s (cfg %s)"
+                           % (how, consts["Shift"], s["type"], sorted(s["leases"]), real2.get(s["id"]), exp2.get(s["id"]), json.dumps(cfg_)),
+                           dict(rep, share={"type": s["type"], "lease_renewal_times": sorted(s["leases"])}, second=how,
+                                spec_leases_after=exp2.get(s["id"]), real_leases_after=real2.get(s["id"])))
         if n in (5, 41):
             ctx.sample({"cfg": cfg_, "zero": c["zero"], "threshold": th, "n_shares": len(c["shares"]),
                         "spec_survivors": len(exp), "real_survivors": len(real),
